@@ -22,6 +22,7 @@ import Proofs.C03.FoldValue
 import Props.C01c
 import Props.C02b
 import Props.C03
+import Props.C11
 set_option autoImplicit false
 
 namespace Narsese.Props.C03
@@ -71,5 +72,11 @@ example : wfLNB Gen.asciiL (toLexN Gen.asciiE C01.sampleTask) = true ∧
     wsFreeN Gen.asciiL (toLexN Gen.asciiE C01.sampleTask) = true ∧
     wfLNB Gen.latexL (toLexN Gen.latexE C01.sampleTask) = true ∧
     wfLNB Gen.hanL (toLexN Gen.hanE C01.sampleTask) = true := by decide +kernel
+
+/-- tie of the model's copula look-ahead list (`EFormat.copulas`, written out in the model) to what the crate's
+`NarseseFormat::copulas()` yields, regenerated on every run: the theorems of this file talk about the model's list -/
+theorem copulas_lookahead_tie :
+    Gen.asciiE.copulas = Gen.asciiCopulasOrder ∧ Gen.latexE.copulas = Gen.latexCopulasOrder ∧
+    Gen.hanE.copulas = Gen.hanCopulasOrder := C11.copulas_order
 
 end Narsese.Props.C03
